@@ -965,6 +965,7 @@ pub fn check_main(args: &[String]) -> i32 {
     let mut reported: BTreeMap<String, (u64, String, String)> = BTreeMap::new();
     let mut known_hit: BTreeMap<String, u64> = BTreeMap::new();
     let mut confirmations: BTreeMap<String, String> = BTreeMap::new();
+    let mut solid_violations = 0u64;
     let dir = format!("{}/replays/{}", verif_home(), prop);
     let _ = std::fs::create_dir_all(&dir);
     for m in &viols {
@@ -981,6 +982,11 @@ pub fn check_main(args: &[String]) -> i32 {
         // confirmation against unhooked code, where a file and a pipe can express the scenario
         let mut mcase = m.case.clone();
         let mut confirm = String::new();
+        // a violation observed on the real binary itself, or on strings handed straight to the
+        // parsers / on machines driven through the library, does not rest on the console seams
+        if m.class.contains("real_binary") || m.class.contains("{direct:") || mcase.kind == "multi" || mcase.kind == "parser" {
+            solid_violations += 1;
+        }
         if let Some(bin) = crate::fidelity::real_bin() {
             if mcase.kind != "multi" && mcase.kind != "env" && mcase.kind != "parser" && !m.class.contains("{direct:") && !m.class.contains("not_reproducible") && !m.class.contains("superlinear")
                 && crate::fidelity::pipe_expressible(&mcase.scn) && !m.class.contains("worker_died") {
@@ -989,6 +995,7 @@ pub fn check_main(args: &[String]) -> i32 {
                     match crate::fidelity::compare(&hist, &r) {
                         Some(Ok(())) => {
                             confirm = "the real binary (guard off, file + pipe) behaves exactly as simulated".to_owned();
+                            solid_violations += 1;
                             if let Some(e) = mcase.expect.as_mut() {
                                 e.real_binary_agrees = Some(true);
                             }
@@ -1054,6 +1061,17 @@ pub fn check_main(args: &[String]) -> i32 {
         stats.gen_rejects, stats.gen_failed, stats.no_verdict_fuel, rechecks.len() - mismatches, rechecks.len(), wall
     );
     if !harness_errors.is_empty() {
+        // a disagreement between simulation and real binary, or any other doubt about the harness,
+        // makes simulated verdicts untrustworthy - but not those that the real binary has shown
+        // itself (or that never touched the console seams): with one of those the tree does
+        // violate the property, and that is the answer
+        let only_seam_doubts = harness_errors.iter().all(|e| e.contains("simulated console and real binary disagree") || e.contains("is not confirmed by the real binary"));
+        if solid_violations > 0 && !reported.is_empty() && only_seam_doubts {
+            for e in harness_errors.iter().take(20) {
+                println!("note (simulation and real binary differ elsewhere; the violations confirmed by the real binary stand): {}", e);
+            }
+            return 1;
+        }
         for e in harness_errors.iter().take(20) {
             println!("HARNESS-ERROR: {}", e);
         }
